@@ -4,6 +4,7 @@ package cl
 
 import (
 	"fmt"
+	"unicode/utf8"
 
 	"github.com/ohler55/slip"
 )
@@ -134,7 +135,9 @@ func (f *ReadFromString) Call(s *slip.Scope, args slip.List, depth int) slip.Obj
 		buf = []byte(ss)
 	}
 	code, pos := slip.ReadOne(buf, s)
-	pos += start
+	// ReadOne returns a byte offset into buf while start and the position
+	// returned are character indices.
+	pos = utf8.RuneCount(buf[:pos]) + start
 	if 0 < len(code) {
 		if !pw {
 		space:
